@@ -48,7 +48,7 @@ def instances(tier):
     if tier != "quick":
         out.append(("history", {"kind": "PWA", "calls": 3, "npts": 1, "tris": 1, "free": True}, {"max_paths": 40000, "max_s": 3000}))
     if tier != "quick":
-        out.append(("history", {"kind": "PWA", "calls": 2, "npts": 2, "tris": 2, "free": True}, {"max_paths": 20000}))
+        out.append(("history", {"kind": "PWA", "calls": 2, "npts": 2, "tris": 1, "free": True}, {"max_paths": 40000, "max_s": 3000}))
     for k in ("Affine", "Translation", "Homogeneous"):
         out.append(("batching_int", {"kind": k}))
     out.append(("history", {"kind": "TPS", "calls": 2, "npts": 1}))
